@@ -114,12 +114,12 @@ def tiny_operator(composite: bool = False) -> Any:
 
 def run_history(rng: Any, mon: str, max_depth: int, length: int, apply_budget: list[int], trace: list[str],
                 stack: list[dict[str, Any]], fired: list[tuple[int, int]], depth: int = 0,
-                outer: list[tuple[Any, dict[str, Any]]] | None = None) -> None:
+                outer: list[tuple[Any, dict[str, Any]]] | None = None, outer_prebuilt: list[Any] | None = None) -> None:
     """Executes a random sequence of events at the current nesting level (recursing into with-blocks).
     Inverses created at enclosing levels stay usable (reduced / applied) inside the nested blocks."""
     n = int(rng.integers(1, length + 1))
     inverses: list[tuple[Any, dict[str, Any]]] = list(outer or [])
-    prebuilt: list[tuple[Config, dict[str, Any]]] = []
+    prebuilt: list[tuple[Config, dict[str, Any]]] = outer_prebuilt if outer_prebuilt is not None else []   # shared with nested levels
     for _ in range(n):
         ev = gen.pick(rng, ['enter', 'enter', 'read', 'create', 'apply', 'raise-inside', 'reduce-inverse', 'prebuild', 'enter-prebuilt'])
         if ev == 'prebuild':
@@ -136,7 +136,7 @@ def run_history(rng: Any, mon: str, max_depth: int, length: int, apply_budget: l
             with cfg:
                 stack.append(top_at_construction)
                 compare(mon, 'enter-prebuilt', stack[-1], trace)
-                run_history(rng, mon, max_depth, max(1, length // 2), apply_budget, trace, stack, fired, depth + 1, inverses)
+                run_history(rng, mon, max_depth, max(1, length // 2), apply_budget, trace, stack, fired, depth + 1, inverses, prebuilt)
                 trace.append(f'EXIT{depth + 1}')
             stack.pop()
             compare(mon, 'exit-prebuilt', stack[-1], trace)
@@ -153,7 +153,7 @@ def run_history(rng: Any, mon: str, max_depth: int, length: int, apply_budget: l
                     LOG.evaluated(mon)
                     if ok and any(getattr(c, f) is not stack[-1][f] and getattr(c, f) != stack[-1][f] for f in FIELDS):
                         LOG.violation('C19', mon, 'enter/as-value', '`with Config(...) as c` did not return the active state', history=' '.join(trace[-14:]))
-                    run_history(rng, mon, max_depth, max(1, length // 2), apply_budget, trace, stack, fired, depth + 1, inverses)
+                    run_history(rng, mon, max_depth, max(1, length // 2), apply_budget, trace, stack, fired, depth + 1, inverses, prebuilt)
                     if boom:
                         trace.append(f'RAISE{depth + 1}')
                         raise Boom()
@@ -297,7 +297,9 @@ def case_history(rng: Any, ctx: Ctx, index: int) -> None:
         LOG.violation('C19', mon, 'final/not-default', 'after the history the active configuration is not the default state', history=' '.join(trace[-14:]))
         config_module._config_var.set(DEFAULT)
     shape = ' '.join(t.split('(')[0] for t in trace)
-    depth = max([int(t[5]) + (1 if trace and trace[0].startswith('ENTER0') else 0) for t in trace if t.startswith('ENTER')] + [0])
+    import re as _re
+    depth = max([int(m.group(1)) + (1 if trace and trace[0].startswith('ENTER0') else 0)
+                 for t in trace for m in [_re.match(r'ENTER(?:-PREBUILT)?(\d+)', t)] if m] + [0])
     LOG.case_key('history:' + shape, depth >= 2)
     LOG.count('C19.history.depth', depth)
     LOG.sample({'kind': 'history', 'events': trace[:40]})
